@@ -18,10 +18,14 @@
                                                                   recorded values as the oracle's answer and sq = the correctly
                                                                   rounded double square root (exact whenever the root is a double)
      D/DW lam n d K | .. | X | labels [| weights] || mat(K*d) -> prior means cov res(K*d) bpart(K)
-   L, D, DW additionally run the AS-CODED models of C15SolveModel.v over Qc (statistics as coded + the C02 model of the semi-definite
-   solver: pstrf, potrf of L^T L, substitutions), with sq = the correctly rounded double square root and epsm = 2^-52:
-     L  -> mrank mbeta(o*(d+1))    (rank found by the pivoted factorisation; "mbeta=NONE" when the model raises an exception)
-     D/DW -> mrank zmeans(K*d) zcov(d*d) mz(K*d) mbp(K) mprior(K) wmet    ("mz=NONE": exception, e.g. a class without examples) *)
+   L, D, DW additionally run the AS-CODED models of C15SolveModel.v (statistics as coded + the C02 model of the semi-definite
+   solver: pstrf, potrf of L^T L, substitutions; epsm = 2^-52) in two instances of the arithmetic record:
+     (x) over Qc with an EXACT square root (defined only where the root is rational; "No_sqrt" otherwise): mx=1, exact results;
+     (f) if (x) meets an irrational root: the same extracted functions over OCaml doubles (mx=0) - the computation of the C++ up
+         to the order of summation;
+   the statistics (zmeans, zcov, mprior; for L: nothing) are always exact rationals (Qc; sqrt(weight) rounded if irrational).
+     L  -> mx mrank mbeta(o*(d+1))    (rank found by the pivoted factorisation; "mbeta=NONE" when the model raises an exception)
+     D/DW -> zmeans(K*d) zcov(d*d) mprior(K) wmet mx mrank mz(K*d) mbp(K)   ("mz=NONE": exception, e.g. a class without examples) *)
 open C15_model
 
 let rec nat_of_int n = if n <= 0 then O else S (nat_of_int (n - 1))
@@ -92,9 +96,16 @@ let qc_of (x : q) : qc = q2Qc x
 let fqc = qc_ops (fun x -> q2Qc (q_sqrt x))
 let qc_epsm = q2Qc (q_of_float epsilon_float)
 let qc_half = q2Qc { qnum = Zpos XH; qden = XO XH }
+exception No_sqrt
+let q_sqrt_exact (x : q) : q = let r = q_sqrt x in if qeq_bool (qmult r r) x then r else raise No_sqrt
+let fqcx = qc_ops (fun x -> q2Qc (q_sqrt_exact x))
+let fflt : float ops = { fzero = 0.; fone = 1.; fadd = (+.); fmul = ( *. ); fsub = (-.); fopp = (fun x -> -. x); fdiv = (/.);
+                         finv = (fun x -> 1. /. x); feqb = (fun x y -> x = y); fleb = (fun x y -> x <= y); fltb = (fun x y -> x < y); fsqrt = sqrt }
 let vec_out (n : int) (v : qc vec) : q list = List.map (fun i -> v (nat_of_int i)) (List.init n (fun i -> i))
-let rank_of n m = match semi_decompose fqc qc_abs (nat_of_int 20) (nat_of_int 32) (nat_of_int 32) RowMajor (nat_of_int n) qc_epsm m with
+let fvec_out (n : int) (v : float vec) : q list = List.map (fun i -> q_of_float (v (nat_of_int i))) (List.init n (fun i -> i))
+let rank_of f fa eps n m = match semi_decompose f fa (nat_of_int 20) (nat_of_int 32) (nat_of_int 32) RowMajor (nat_of_int n) eps m with
   | Some dec -> string_of_int (int_of_nat dec.sd_rank) | None -> "-1"
+let finite_f x = x = x && x <> infinity && x <> neg_infinity
 
 let split_on sep toks =
   let rec go acc cur = function
@@ -195,10 +206,21 @@ let handle line =
     let rdata = chunk sizes (List.map2 (fun x y -> (List.map qc_of x, List.map qc_of y)) xs ys) in
     let dn = nat_of_int d in
     let lamc = qc_of lam in
-    let mb = (match lrc_train fqc qc_abs dn (nat_of_int o) lamc qc_epsm rdata with
-      | Some bs -> out "mbeta" (List.concat_map (fun b -> vec_out (d + 1) b) bs)
-      | None -> "mbeta=NONE") in
-    String.concat " " [ out "grad" g; "mrank=" ^ rank_of (d + 1) (lrc_A fqc dn lamc rdata); mb ]
+    let mb =
+      (try
+         let r = rank_of fqcx qc_abs qc_epsm (d + 1) (lrc_A fqcx dn lamc rdata) in
+         (match lrc_train fqcx qc_abs dn (nat_of_int o) lamc qc_epsm rdata with
+          | Some bs -> "mx=1 mrank=" ^ r ^ " " ^ out "mbeta" (List.concat_map (fun b -> vec_out (d + 1) b) bs)
+          | None -> "mx=1 mrank=" ^ r ^ " mbeta=NONE")
+       with No_sqrt ->
+         let fdata = chunk sizes (List.map2 (fun x y -> (List.map float_of_q x, List.map float_of_q y)) xs ys) in
+         let lamf = float_of_q lam in
+         let r = rank_of fflt abs_float epsilon_float (d + 1) (lrc_A fflt dn lamf fdata) in
+         (match lrc_train fflt abs_float dn (nat_of_int o) lamf epsilon_float fdata with
+          | Some bs when List.for_all (fun b -> List.for_all (fun i -> finite_f (b (nat_of_int i))) (range (d + 1))) bs ->
+            "mx=0 mrank=" ^ r ^ " " ^ out "mbeta" (List.concat_map (fun b -> fvec_out (d + 1) b) bs)
+          | _ -> "mx=0 mrank=" ^ r ^ " mbeta=NONE")) in
+    String.concat " " [ out "grad" g; mb ]
   | "D" | "DW" ->
     let lam = q_of_string (arg 0) and d = int_of_string (arg 2) and kk = int_of_string (arg 3) in
     let xs = rows d (sec 2) and labs = List.map (fun s -> nat_of_int (int_of_string s)) (List.nth case 3) in
@@ -221,22 +243,43 @@ let handle line =
                    List.map (fun k -> lda_residual dn cf (mn cn) (zm cn) (nat_of_int k)) (range d)) cls);
       out "bpart" (List.map (fun c -> let cn = nat_of_int c in lda_bias_part dn (mn cn) (zm cn)) cls);
       (let lamc = qc_of lam in
-       let res, wmet =
+       (* statistics: exact rationals *)
+       let stats =
          if weighted then
            let wd = chunk sizes (List.map (fun ((x, y), w) -> ((List.map qc_of x, y), qc_of w)) l) in
-           (ldaw_train fqc qc_abs qc_half dn kn lamc qc_epsm wd, ldaw_met wd)
+           String.concat " " [
+             out "zmeans" (List.concat_map (fun c -> vec_out d (ldaw_mean fqc dn (nat_of_int c) wd)) cls);
+             out "zcov" (List.concat_map (fun j -> vec_out d (ldaw_cov fqc dn kn lamc wd (nat_of_int j))) (range d));
+             out "mprior" (List.map (fun c -> fqc.fdiv (ldaw_cw fqc (nat_of_int c) wd) (ldaw_wsum fqc wd)) cls);
+             out "wmet" (ldaw_met wd) ]
          else
            let cd = chunk sizes (List.map (fun ((x, y), _) -> (List.map qc_of x, y)) l) in
-           (ldac_train fqc qc_abs qc_half dn kn lamc qc_epsm cd, []) in
-       match res with
-       | None -> "mz=NONE"
-       | Some r ->
-         String.concat " " [
-           "mrank=" ^ rank_of d r.lda_covm;
-           out "zmeans" (List.concat_map (vec_out d) r.lda_means);
-           out "zcov" (List.concat_map (fun j -> vec_out d (r.lda_covm (nat_of_int j))) (range d));
-           out "mz" (List.concat_map (vec_out d) r.lda_z);
-           out "mbp" r.lda_bias_parts; out "mprior" r.lda_priors; out "wmet" wmet ]) ]
+           String.concat " " [
+             out "zmeans" (List.concat_map (fun c -> vec_out d (ldac_mean fqc dn (nat_of_int c) cd)) cls);
+             out "zcov" (List.concat_map (fun j -> vec_out d (ldac_cov fqc dn kn lamc cd (nat_of_int j))) (range d));
+             out "mprior" (List.map (fun c -> fqc.fdiv (fofnat fqc (ldac_num (nat_of_int c) cd)) (fofnat fqc (nat_of_int (List.length l)))) cls);
+             "wmet=" ] in
+       let show vo qo mx rk res =
+         match res with
+         | None -> "mx=" ^ mx ^ " mz=NONE"
+         | Some r -> String.concat " " [ "mx=" ^ mx; "mrank=" ^ rk r.lda_covm;
+                                         out "mz" (List.concat_map (vo d) r.lda_z); out "mbp" (List.map qo r.lda_bias_parts) ] in
+       let solved =
+         (try
+            let res =
+              if weighted then ldaw_train fqcx qc_abs qc_half dn kn lamc qc_epsm (chunk sizes (List.map (fun ((x, y), w) -> ((List.map qc_of x, y), qc_of w)) l))
+              else ldac_train fqcx qc_abs qc_half dn kn lamc qc_epsm (chunk sizes (List.map (fun ((x, y), _) -> (List.map qc_of x, y)) l)) in
+            show vec_out (fun x -> x) "1" (rank_of fqcx qc_abs qc_epsm d) res
+          with No_sqrt ->
+            let lamf = float_of_q lam in
+            let res =
+              if weighted then ldaw_train fflt abs_float 0.5 dn kn lamf epsilon_float (chunk sizes (List.map (fun ((x, y), w) -> ((List.map float_of_q x, y), float_of_q w)) l))
+              else ldac_train fflt abs_float 0.5 dn kn lamf epsilon_float (chunk sizes (List.map (fun ((x, y), _) -> (List.map float_of_q x, y)) l)) in
+            let res = (match res with
+              | Some r when List.for_all (fun z -> List.for_all (fun i -> finite_f (z (nat_of_int i))) (range d)) r.lda_z -> Some r
+              | _ -> None) in
+            show fvec_out q_of_float "0" (rank_of fflt abs_float epsilon_float d) res) in
+       stats ^ " " ^ solved) ]
   | _ -> kind ^ " -"
 
 let () =
